@@ -672,7 +672,11 @@ TOP:
 				}
 			}
 		case method != nil:
-			args := root.formReflectArgs(ov, vars, field)
+			args, ea2 := root.formReflectArgs(ov, vars, field, fd, method.Type())
+			if 0 < len(ea2) {
+				ea = append(ea, ea2...)
+				return
+			}
 			mva := method.Call(args)
 			switch len(mva) {
 			case 1:
@@ -690,17 +694,45 @@ TOP:
 	return
 }
 
-func (root *Root) formReflectArgs(ov reflect.Value, vars map[string]interface{}, field *Field) (args []reflect.Value) {
-	args = make([]reflect.Value, 0, len(field.Args)+1)
+func (root *Root) formReflectArgs(
+	ov reflect.Value,
+	vars map[string]interface{},
+	field *Field,
+	fd *FieldDef,
+	mt reflect.Type) (args []reflect.Value, ea []error) {
+
+	// Coerce the arguments the same way as for the Resolver and
+	// AnyResolver approaches.
+	var vals map[string]interface{}
+	if vals, ea = root.formArgs(vars, field, fd); 0 < len(ea) {
+		return nil, ea
+	}
+	// The arguments to the method are the receiver followed by the field
+	// arguments in the order declared. A mismatch is an error and not a
+	// reflect.Call panic.
+	last := mt.NumIn() - 1
+	cnt := len(fd.args.list)
+	if (mt.IsVariadic() && (last < 1 || cnt < last-1)) || (!mt.IsVariadic() && cnt != last) || !ov.Type().AssignableTo(mt.In(0)) {
+		return nil, []error{resWarn(field.line, field.col, "%s can not be called with the arguments of %s", mt, field.Name)}
+	}
+	args = make([]reflect.Value, 0, cnt+1)
 	args = append(args, ov)
-	// Build the args by combining provided args and variable values as
-	// appropriate.
-	for _, av := range field.Args {
-		if vr, ok := av.Value.(Var); ok && vars != nil {
-			args = append(args, reflect.ValueOf(vars[string(vr)]))
+	for i, a := range fd.args.list {
+		var pt reflect.Type
+		if mt.IsVariadic() && last <= i+1 {
+			pt = mt.In(last).Elem()
 		} else {
-			args = append(args, reflect.ValueOf(av.Value))
+			pt = mt.In(i + 1)
 		}
+		av := reflect.ValueOf(vals[a.N])
+		switch {
+		case !av.IsValid():
+			// Omitted or null so use the zero value.
+			av = reflect.Zero(pt)
+		case !av.Type().AssignableTo(pt):
+			return nil, []error{resWarn(field.line, field.col, "a %s can not be used as the %s argument to %s", av.Type(), a.N, field.Name)}
+		}
+		args = append(args, av)
 	}
 	return
 }
